@@ -738,6 +738,22 @@ func genHostCase(t *rapid.T) *HostCase {
 			ty = &H{K: "struct", Fields: []HF{{Go: "Rows", Tag: `yae:"rows"`}, {Go: "N", Tag: ""}}, Items: []*H{{K: "slice", Elem: el}, {K: "int"}}}
 		}
 	}
+	if rapid.IntRange(0, 11).Draw(t, "mixedmap") == 0 {
+		// a map (or slice) whose static element type is concrete but has an interface-typed or
+		// nil-able part inside: the entries may differ in that part (inconsistent data)
+		inner := pick2(t, []*H{
+			{K: "slice", Elem: &H{K: "iface", Elem: pick2(t, []*H{{K: "int"}, {K: "string"}})}},
+			{K: "struct", Fields: []HF{{Go: "P"}, {Go: "N"}}, Items: []*H{{K: "ptr", Elem: &H{K: "int"}}, {K: "int"}}},
+			{K: "struct", Fields: []HF{{Go: "F", Tag: `yae:"f"`}}, Items: []*H{{K: "iface", Elem: &H{K: "float64"}}}},
+			{K: "struct", Fields: []HF{{Go: "S"}}, Items: []*H{{K: "slice", Elem: &H{K: "string"}}}},
+			{K: "map", KeyT: &H{K: "string"}, Elem: &H{K: "iface", Elem: &H{K: "bool"}}},
+		})
+		if rapid.Bool().Draw(t, "mixedslice") {
+			ty = &H{K: "slice", Elem: inner}
+		} else {
+			ty = &H{K: "map", KeyT: pick2(t, []*H{{K: "string"}, {K: "int"}}), Elem: inner}
+		}
+	}
 	c := &HostCase{V1: g.fill(ty, true)}
 	// second value: same Go type (arrays keep their length through the filled witness)
 	c.V2 = g.fill(typeWitness(c.V1), true)
